@@ -56,6 +56,8 @@ type Profile struct {
 	MixedActs    float64 // first attempts fail, later succeed
 	Garbage      float64 // probability that an op is garbage
 	GarbageReply float64
+	// HugeAnswers: answers at the 64 KiB boundary (upstreams are stream kinds then).
+	HugeAnswers float64
 	// DupReply: the upstream sends its reply three to six times back to back.
 	DupReply float64
 	// LateReply: the reply comes after the transports' 6 s I/O limit (it is
@@ -120,6 +122,8 @@ func ProfileFor(focus, arm string) Profile {
 		}
 	case "C03":
 		p.OddQueries = 0.35
+		p.Shapes = []string{"plain", "plain", "mixed", "tight"}
+		p.HugeAnswers = 0.1
 		p.RichRules = true
 		if arm == "faults" {
 			p.FailActs, p.MixedActs, p.GarbageReply = 0.35, 0.15, 0.1
@@ -144,6 +148,7 @@ func ProfileFor(focus, arm string) Profile {
 			p.Cache = "off"
 		}
 	case "C09":
+		p.HugeAnswers = 0.05
 		p.Shapes = []string{"plain", "mixed", "tight", "tight"}
 		p.BigAnswers = 0.7
 		p.EDNSProb = 0.7
@@ -180,6 +185,9 @@ func ProfileFor(focus, arm string) Profile {
 			p.OddQueries = 0
 		}
 	case "C07", "C08", "C19":
+		if focus == "C07" {
+			p.HugeAnswers = 0.05
+		}
 		p.Cache = "ample"
 		if focus == "C07" && arm == "tiny" {
 			p.Cache = "tiny"
@@ -192,6 +200,9 @@ func ProfileFor(focus, arm string) Profile {
 			p.TTLs = "edge"
 		}
 	case "C13":
+		p.Shapes = []string{"plain", "plain", "mixed", "tight"}
+		p.HugeAnswers = 0.15
+		p.EDNSProb = 0.6
 		p.Listeners = []string{"tcp", "gnet", "tls"}
 		p.NConns, p.OpsPerConn = [2]int{1, 4}, [2]int{1, 40}
 		p.Seg = true
@@ -653,6 +664,14 @@ func genToken(r *rng, pr *Profile, qtype uint16) *plan.TokenSpec {
 	}
 	if a.Shape == "tight" {
 		a.PadTo = []int{520, 560, 700, 1000, 1300, 1500, 2500, 4300}[r.intn(8)]
+		if pr.HugeAnswers > 0 && r.p(pr.HugeAnswers) {
+			// a stream-sized answer with (almost) no room left for one more record
+			a.PadTo = []int{65535, 65530, 65524, 65500}[r.intn(4)]
+		}
+	}
+	if a.Shape != "tight" && a.Shape != "late" && pr.HugeAnswers > 0 && r.p(pr.HugeAnswers/2) {
+		// fits a stream on the wire thanks to compression, not when written out in full
+		a.PadTo = []int{66000, 70000}[r.intn(2)]
 	}
 	if r.p(pr.OptInReply) {
 		o := &plan.UpOPT{Pos: r.intn(5), UDPSize: []uint16{512, 1232, 4096, 65535}[r.intn(4)]}
@@ -723,6 +742,10 @@ func genRules(r *rng, pr *Profile, rp *plan.RouterPlan) {
 				lines = append(lines, "# a comment", "", "   ")
 			}
 			ds.Files = append(ds.Files, lines)
+		}
+		if r.p(0.07) {
+			// a set without a single entry: it matches nothing
+			ds.Files = [][]string{[][]string{{}, {"# nothing here", "", "   "}}[r.intn(2)]}
 		}
 		rp.DomainSets = append(rp.DomainSets, ds)
 	}
@@ -909,12 +932,18 @@ func specialize(r *rng, p *plan.Plan, focus, arm string) {
 				}
 			}
 			rp.CloseAtUs = r.i64(1000, last+2_000_000)
+			if r.p(0.3) {
+				rp.MetricsAddr = "127.0.0.1:9153"
+			}
 		case "startfault":
 			kinds := []string{"addr_in_use", "bad_pem", "bad_proto", "bad_scheme", "missing_file", "bad_ca", "no_cert"}
 			if focus == "C10" {
 				kinds = []string{"dup_tag", "dup_set_tag", "unknown_upstream_tag", "unknown_domain_tag", "missing_tag", "missing_addr"}
 			}
 			rp.StartFault = &plan.StartFault{Kind: kinds[r.intn(len(kinds))], Pos: r.intn(8)}
+			if r.p(0.5) {
+				rp.MetricsAddr = "127.0.0.1:9153" // the first thing run() starts
+			}
 			rp.Ops, rp.Conns = nil, nil
 			rp.HorizonUs = 1_000_000
 		}
@@ -1052,6 +1081,12 @@ func genCacheOps(r *rng, p *plan.Plan, focus, arm string) {
 		a.Shape = "plain"
 		a.NAn, a.NNs, a.NAr = r.rng(1, 3), r.intn(2), r.intn(2)
 		a.Compress = r.intn(4)
+		if focus == "C07" && r.p(0.15) {
+			// fits a stream on the wire thanks to compression, not when written
+			// out in full (the form the cache keeps)
+			a.PadTo = []int{66000, 70000, 64000}[r.intn(3)]
+			a.Compress = 1 + r.intn(3)
+		}
 		var life int64 // seconds
 		switch focus {
 		case "C19":
